@@ -15,7 +15,9 @@ RULE = ("complete products per sub-lattice: D1 dictionary pages (physical type x
         "categories argument), D2 plain pages (type/logical type x codec x page version+compressed flag; "
         "inside: every 1-,2-,3-page split x 1-2 row groups x null pattern x level run program), D3 delta "
         "(int32/int64 x miniblock width 0..64 x count x block shape x v1/v2), D4 RLE booleans, D5 dictionary "
-        "fallback, D6 unsupported layouts (must raise). evaluations = cells; counts.files = files decoded; "
+        "fallback, D6 unsupported layouts (must raise), D8 dictionaries filling their index width, D9 foreign chunk "
+        "statistics {absent, null_count, full, min/max only} x six level run layouts x four page splits on a "
+        "20-value column. evaluations = cells; counts.files = files decoded; "
         "a cell is non-trivial when >= 1 file with >= 1 value was decoded and compared")
 ASSUMPTIONS = ["specpq writer emits valid Parquet (self-checked by specpq reader on every file in thorough tier, "
                "on every cell's first file in quick tier)", "cramjam codecs trusted", "flat columns only"]
@@ -148,6 +150,12 @@ def points(tier):
                         if cats and dsize > 256:
                             continue
                         pts.append({"d": "D8", "type": t, "dsize": dsize, "width": w, "v": v, "cats": cats})
+    # D9: chunk statistics of a foreign writer (absent / null_count only / full / min-max without null_count) x
+    # level run layouts on a 20-value column
+    for t in (("int32", "int64", "double", "utf8", "uint32", "ts_us") if tier == "thorough" else ("int64", "double", "utf8")):
+        for v in (1, 2):
+            for st in ("none", "nc", "full", "minmax"):
+                pts.append({"d": "D9", "type": t, "v": v, "stats": st})
     cb = list(combos()) if tier == "thorough" else QUICK_COMBOS
     codecs = [0, 1, 2, 6, 7, 4] if tier == "thorough" else [0, 1, 6]
     for t in cb:
@@ -182,7 +190,7 @@ def explore(run, tier):
 
 def crash_sig(point, res):
     s = {"d": point["d"], "symptom": res["outcome"]}
-    for k in ("type", "width", "v", "enc", "longval", "count", "codec", "pv", "kind", "cats", "dsize"):
+    for k in ("type", "width", "v", "enc", "longval", "count", "codec", "pv", "kind", "cats", "dsize", "stats"):
         if k in point:
             s[k] = point[k]
     return s
@@ -200,7 +208,7 @@ class Cell:
     def bad(self, symptom, detail, **extra):
         s = {"d": self.point["d"], "symptom": symptom}
         s.update(getattr(self, "ctx", {}))
-        for k in ("type", "width", "v", "enc", "longval", "count", "codec", "pv", "kind", "cats", "dsize"):
+        for k in ("type", "width", "v", "enc", "longval", "count", "codec", "pv", "kind", "cats", "dsize", "stats"):
             if k in self.point:
                 s[k] = self.point[k]
         s.update(extra)
@@ -435,6 +443,89 @@ def run_D8(c, p):
             if df is None:
                 continue
             compare(c, df, "c", exp, combo, what, cat=bool(p["cats"]), has_null=any(mask))
+
+
+def _level_program(name, levels):
+    """a named run layout for one page's definition levels (always a legal program for these levels)"""
+    k = len(levels)
+    if name in ("auto", "rle", "bp"):
+        return name
+    if name == "rle1+bp":
+        return [("rle", 1), ("bp", k - 1)] if k >= 2 else "rle"
+    if name == "bp8+rest":
+        if k <= 8:
+            return "bp"
+        rest = levels[8:]
+        return [("bp", 8), ("rle" if all(x == rest[0] for x in rest) else "bp", k - 8)]
+    if name == "rle+rle":
+        j = 1
+        while j < k and levels[j] == levels[0]:
+            j += 1
+        if j < 2:
+            return "rle"
+        prog = [("rle", j // 2), ("rle", j - j // 2)]
+        i = j
+        while i < k:
+            e = i
+            while e < k and levels[e] == levels[i]:
+                e += 1
+            prog.append(("rle", e - i))
+            i = e
+        return prog
+    raise KeyError(name)
+
+
+def run_D9(c, p):
+    from mc.specpq import writer as W, codecs as C
+    combo = combos()[p["type"]]
+    ver, st = p["v"], p["stats"]
+    pool = combo[6]
+    n = 20
+    first = True
+    for rep, pat in (("required", "none"), ("optional", "none"), ("optional", "first"), ("optional", "alt"),
+                     ("optional", "last")):
+        mask = nullmask(pat, n)
+        vals = [None if mask[i] else pool[(i * 5 + i // 6) % len(pool)] for i in range(n)]
+        exp = expected(combo, vals, p["type"])
+        present = [v for v in vals if v is not None]
+        stats = None
+        if st != "none":
+            stats = {}
+            if st in ("nc", "full"):
+                stats["null_count"] = sum(mask)
+            if st in ("full", "minmax") and present and p["type"] not in ("double_nan",):
+                if combo[0] == T_BYTE_ARRAY:
+                    lo, hi = min(present), max(present)
+                else:
+                    key = (lambda v: v % 2 ** 32) if p["type"] == "uint32" else (lambda v: v)
+                    lo = C.plain_encode([min(present, key=key)], combo[0], combo[1])
+                    hi = C.plain_encode([max(present, key=key)], combo[0], combo[1])
+                stats.update({"min_value": lo, "max_value": hi})
+                if st == "full":
+                    stats.update({"min": lo, "max": hi})
+        for split in ([n], [8, 12], [1, 19], [16, 4]):
+            for prog in (("auto", "rle", "bp", "rle1+bp", "bp8+rest", "rle+rle") if rep == "optional" else ("auto",)):
+                pages = []
+                e0 = 0
+                for k in split:
+                    lv = [0 if m else 1 for m in mask[e0:e0 + k]]
+                    pages.append({"n": k, "enc": "PLAIN", "v": ver, "def_prog": _level_program(prog, lv)})
+                    e0 += k
+                chunk = {"rows": vals, "codec": 0, "pages": pages}
+                if stats is not None:
+                    chunk["stats"] = stats
+                col = _col("c", combo, rep)
+                data = W.write_file({"created_by": CREATED_BY, "columns": [col], "row_groups": [{"c": chunk}]})
+                what = "D9 %s nulls=%s stats=%s split=%s levels=%s v%d" % (rep, pat, st, split, prog, ver)
+                c.ctx = {"nulls": pat if rep == "optional" else "required", "levels": prog, "pages": len(split)}
+                if first:
+                    _selfcheck(c, data, "c", vals, what)
+                    first = False
+                df = _try_read(c, data, what)
+                c.files += 1
+                if df is None:
+                    continue
+                compare(c, df, "c", exp, combo, what, has_null=any(mask))
 
 
 def _splits(n, maxpages=3):
